@@ -617,6 +617,7 @@ DB = "nostr_relay/storage/db.py"
 BASE = "nostr_relay/storage/base.py"
 
 MUTANTS = [
+    M("c19-average-frame-size", "nostr_relay/web.py", "    return sent\n", "    log.debug(\"avg %d\", sent // n_frames)\n    return sent\n", "C19.arith"),
     M("c19-authenticate-returns-none", "nostr_relay/auth.py", "        if not isinstance(auth_event_json, dict):\n            raise AuthenticationError(\"Invalid\")", "        if not isinstance(auth_event_json, dict):\n            return None", "C19.token"),
     M("c19-cleanup-per-command-table", "nostr_relay/rate_limiter.py", "                if (not ts) or (now - ts[0]) > max_interval:", "                if (not ts) or (now - ts[0]) > {c: max(r)[0] for c, r in self.rules[\"ip\"].items()}[cmd]:", "C19.limiter"),
     M("c19-cleanup-unguarded", "nostr_relay/web.py", "        if rate_limiter:\n            rate_limiter.cleanup()\n", "        rate_limiter.cleanup()\n", "C19.none"),
